@@ -209,10 +209,127 @@ fn run_parser<'a, R: lexpr::parse::Read<'a>>(mut p: Parser<R>, api: &str, out: &
     out.push_str("]}");
 }
 
+struct ShortSink { buf: Vec<u8>, k: usize, fail_at: Option<usize>, cap: Option<usize> }
+impl std::io::Write for ShortSink {
+    fn write(&mut self, data: &[u8]) -> std::io::Result<usize> {
+        if Some(self.buf.len()) == self.fail_at {
+            return Err(std::io::Error::new(std::io::ErrorKind::BrokenPipe, "injected"));
+        }
+        let mut n = data.len().min(self.k);
+        if let Some(c) = self.cap {
+            // a sink that is full accepts nothing more (Ok(0)), like a fixed-size buffer
+            n = n.min(c.saturating_sub(self.buf.len()));
+        }
+        if let Some(f) = self.fail_at {
+            if self.buf.len() < f { n = n.min(f - self.buf.len()); }
+        }
+        self.buf.extend_from_slice(&data[..n]);
+        Ok(n)
+    }
+    fn flush(&mut self) -> std::io::Result<()> { Ok(()) }
+}
+
+fn print_corpus() -> Vec<Value> {
+    use lexpr::Cons;
+    let mut v = vec![
+        Value::Nil, Value::Null, Value::Bool(true), Value::Bool(false),
+        Value::from(0u64), Value::from(7u64), Value::from(-42i64), Value::from(12345678901u64), Value::from(i64::MIN),
+        Value::from(u64::MAX), Value::from(1.5f64), Value::from(-0.0f64), Value::from(1e21f64), Value::from(5e-324f64),
+        Value::from('a'), Value::from('('), Value::from(' '), Value::from('\n'), Value::from('\u{7f}'), Value::from('\u{3bb}'),
+        Value::from('\u{1F600}'), Value::from('x'), Value::from(';'), Value::from('\\'),
+        Value::string(""), Value::string("a\"b\\c"), Value::string("\u{0b}x"), Value::string("tab\there\r\n"),
+        Value::string("\u{3bb}\u{7f}\u{0}"), Value::string("\u{7}\u{8}"),
+        Value::symbol("foo"), Value::symbol("+"), Value::symbol("..."), Value::keyword("kw"), Value::keyword("a-b"),
+        Value::bytes(Vec::<u8>::new()), Value::bytes(vec![0u8, 7, 255]),
+        Value::cons(1, 2), Value::list(vec![Value::from(1), Value::string("a"), Value::from('b')]),
+        Value::vector(Vec::<Value>::new()), Value::vector(vec![Value::from(1), Value::from(2)]),
+        Value::append(vec![Value::from(1), Value::from(2)], Value::symbol("tail")),
+        Value::cons(Value::Nil, Value::Nil), Value::cons(Value::from(1), Value::vector(vec![Value::from(2)])),
+    ];
+    let nested = Value::list(vec![Value::list(vec![Value::from(1)]),
+        Value::vector(vec![Value::from(2), Value::Cons(Cons::new(Value::from(3), Value::from(4)))]), Value::bytes(vec![9u8])]);
+    v.push(nested);
+    v
+}
+
+fn print_option_sets() -> Vec<(String, lexpr::print::Options)> {
+    use lexpr::print::*;
+    let mut out = vec![("default".to_string(), Options::default()), ("elisp".to_string(), Options::elisp())];
+    for (n, k) in [("kw-prefix", KeywordSyntax::ColonPrefix), ("kw-postfix", KeywordSyntax::ColonPostfix)] {
+        out.push((n.to_string(), Options::default().with_keyword_syntax(k)));
+    }
+    for (n, k) in [("nil-symbol", NilSyntax::Symbol), ("nil-empty", NilSyntax::EmptyList), ("nil-false", NilSyntax::False)] {
+        out.push((n.to_string(), Options::default().with_nil_syntax(k)));
+        out.push((format!("{}-boolsym", n), Options::default().with_nil_syntax(k).with_bool_syntax(BoolSyntax::Symbol)));
+    }
+    out.push(("brackets-r6rs".to_string(), Options::default().with_vector_syntax(VectorSyntax::Brackets).with_bytes_syntax(BytesSyntax::R6RS)));
+    out.push(("brackets-r7rs".to_string(), Options::default().with_vector_syntax(VectorSyntax::Brackets)));
+    out.push(("brackets-elispbytes".to_string(), Options::default().with_vector_syntax(VectorSyntax::Brackets).with_bytes_syntax(BytesSyntax::Elisp)));
+    out.push(("r6rs-bytes".to_string(), Options::default().with_bytes_syntax(BytesSyntax::R6RS)));
+    out.push(("elisp-strings".to_string(), Options::default().with_string_syntax(StringSyntax::Elisp)));
+    out.push(("elisp-chars".to_string(), Options::default().with_char_syntax(CharSyntax::Elisp)));
+    out
+}
+
+/// C07 corpus: every value x option set into short-writing / failing sinks; reports discrepancies.
+fn print_check(out: &mut String) {
+    let mut cases = 0usize;
+    let mut bad: Vec<String> = Vec::new();
+    for v in print_corpus() {
+        // entry points agree
+        let full_default = lexpr::to_vec(&v).unwrap();
+        if lexpr::to_string(&v).unwrap().as_bytes() != &full_default[..] { bad.push(format!("to_string != to_vec for {:?}", v)); }
+        if format!("{}", v).as_bytes() != &full_default[..] { bad.push(format!("Display != to_vec for {:?}", v)); }
+        if lexpr::to_vec_custom(&v, lexpr::print::Options::default()).unwrap() != full_default { bad.push(format!("customised(default) != default for {:?}", v)); }
+        for (name, opts) in print_option_sets() {
+            let full = lexpr::to_vec_custom(&v, opts).unwrap();
+            if std::str::from_utf8(&full).is_err() { bad.push(format!("printed text is not UTF-8: {:?} under {}", v, name)); }
+            for k in 0..=3usize {
+                cases += 1;
+                let mut sink = ShortSink { buf: Vec::new(), k, fail_at: None, cap: None };
+                let r = if name == "default" { lexpr::to_writer(&mut sink, &v) } else { lexpr::to_writer_custom(&mut sink, &v, opts) };
+                if k == 0 {
+                    if r.is_ok() && !full.is_empty() { bad.push(format!("k=0 sink reported Ok for {:?} under {}", v, name)); }
+                } else if r.is_err() || sink.buf != full {
+                    bad.push(format!("k={} sink: ok={} delivered {:?} expected {:?} for {:?} under {}", k, r.is_ok(),
+                        String::from_utf8_lossy(&sink.buf), String::from_utf8_lossy(&full), v, name));
+                }
+            }
+            for p in 0..full.len() {
+                cases += 1;
+                let mut sink = ShortSink { buf: Vec::new(), k: 2, fail_at: Some(p), cap: None };
+                let r = lexpr::to_writer_custom(&mut sink, &v, opts);
+                if r.is_ok() || sink.buf != full[..p] {
+                    bad.push(format!("failure at {}: ok={} delivered {:?} of {:?} for {:?} under {}", p, r.is_ok(),
+                        String::from_utf8_lossy(&sink.buf), String::from_utf8_lossy(&full), v, name));
+                }
+            }
+            for cap in 0..full.len() {
+                cases += 1;
+                let mut sink = ShortSink { buf: Vec::new(), k: 3, fail_at: None, cap: Some(cap) };
+                let r = lexpr::to_writer_custom(&mut sink, &v, opts);
+                if r.is_ok() || sink.buf != full[..cap] {
+                    bad.push(format!("sink full after {} bytes: ok={} delivered {:?} of {:?} for {:?} under {}", cap, r.is_ok(),
+                        String::from_utf8_lossy(&sink.buf), String::from_utf8_lossy(&full), v, name));
+                }
+            }
+            if bad.len() > 5 { break; }
+        }
+        if bad.len() > 5 { break; }
+    }
+    write!(out, "{{\"cases\":{},\"bad\":[", cases).unwrap();
+    for (i, b) in bad.iter().take(5).enumerate() {
+        if i > 0 { out.push(','); }
+        jstr(out, b.as_bytes());
+    }
+    out.push_str("]}");
+}
+
 fn main() {
     let a: Vec<String> = std::env::args().collect();
     let mut out = String::new();
     match a[1].as_str() {
+        "printcheck" => print_check(&mut out),
         "parse" => {
             let opts = parse_opts(&a[2]);
             let src = a[3].as_str();
